@@ -46,11 +46,13 @@ pub struct ReadBackOpts {
     pub inode: bool,
     /// compare only these mode bits (a real directory source stores Go-style modes with type bits)
     pub mode_mask: u32,
+    /// files named `*.stream` are expected to carry size 0 in their node (SimSource convention; not for real directories)
+    pub stream_sizes: bool,
 }
 
 impl Default for ReadBackOpts {
     fn default() -> Self {
-        Self { meta: true, ranged: 3, restore: false, inode: true, mode_mask: u32::MAX }
+        Self { meta: true, ranged: 3, restore: false, inode: true, mode_mask: u32::MAX, stream_sizes: true }
     }
 }
 
@@ -130,8 +132,9 @@ pub fn read_back<S: IndexedFull>(
             }
         }
         if let Kind::File(bytes) = &e.kind {
-            if node.meta.size != bytes.len() as u64 {
-                return ReadBack::Differs(show_key(key), format!("size {} != {}", node.meta.size, bytes.len()));
+            let want_size = if opts.stream_sizes && crate::model::is_stream(key.last().unwrap()) { 0 } else { bytes.len() as u64 };
+            if node.meta.size != want_size {
+                return ReadBack::Differs(show_key(key), format!("size {} != {}", node.meta.size, want_size));
             }
             // dump
             let mut out = Vec::with_capacity(bytes.len());
@@ -185,7 +188,7 @@ pub fn read_complete<S: IndexedFull>(repo: &Repository<S>, snap: &SnapshotFile) 
         if node.is_file() {
             let mut out = Vec::new();
             repo.dump(node, &mut out).map_err(|e| (format!("dump `{}`", path.display()), e.display_log()))?;
-            if out.len() as u64 != node.meta.size {
+            if out.len() as u64 != node.meta.size && !crate::model::is_stream(node.name().as_encoded_bytes()) {
                 return Err((format!("dump `{}`", path.display()), format!("dumped {} bytes but node size is {}", out.len(), node.meta.size)));
             }
             n += 1;
